@@ -224,16 +224,33 @@ type RawSPS struct {
 	Vui                      RawVUI
 }
 
+// cropUnits 裁剪偏移量的单位(亮度样本数)，见 H.264 7.4.2.1.1 式 (7-19)~(7-22)：
+// 单位取决于色度格式(SubWidthC/SubHeightC)和是否为场编码，并非固定为 2
+func (sps *RawSPS) cropUnits() (unitX, unitY int) {
+	subWidthC, subHeightC := 1, 1 // ChromaArrayType == 0：单色或颜色平面分离
+	if sps.SeparateColourPlaneFlag == 0 {
+		switch sps.ChromaFormatIdc {
+		case 1: // 4:2:0
+			subWidthC, subHeightC = 2, 2
+		case 2: // 4:2:2
+			subWidthC, subHeightC = 2, 1
+		}
+	}
+	return subWidthC, subHeightC * (2 - int(sps.FrameMbsOnlyFlag))
+}
+
 // Width 视频宽度（像素）
 func (sps *RawSPS) Width() int {
-	w := (sps.PicWidthInMbsMinus1+1)*16 - sps.FrameCropLeftOffset*2 - sps.FrameCropRightOffset*2
-	return int(w)
+	unitX, _ := sps.cropUnits()
+	return (int(sps.PicWidthInMbsMinus1)+1)*16 -
+		unitX*(int(sps.FrameCropLeftOffset)+int(sps.FrameCropRightOffset))
 }
 
 // Height 视频高度（像素）
 func (sps *RawSPS) Height() int {
-	h := (2-uint16(sps.FrameMbsOnlyFlag))*(sps.PicHeightInMapUnitsMinus1+1)*16 - sps.FrameCropTopOffset*2 - sps.FrameCropBottomOffset*2
-	return int(h)
+	_, unitY := sps.cropUnits()
+	return (2-int(sps.FrameMbsOnlyFlag))*(int(sps.PicHeightInMapUnitsMinus1)+1)*16 -
+		unitY*(int(sps.FrameCropTopOffset)+int(sps.FrameCropBottomOffset))
 }
 
 // FrameRate Video frame rate
